@@ -261,3 +261,82 @@ func vReplace(s, old, new string) string {
 	}
 	return out
 }
+
+// macros whose body computes the expansion from interpreter state
+var vC15Stateful = []struct{ def, change, call, hand0, hand1 string }{
+	{`(def mode 0) (defmac m [a] (cond (== mode 0) ^(+ ~a 1) ^(* ~a 2)))`, `(set mode 1)`, `(m 9001)`, `(+ ARG 1)`, `(* ARG 2)`},
+	{`(def tmpl (quote (- ARGSYM 3))) (defmac m [a] (list (first tmpl) a (first (rest (rest tmpl)))))`, `(set tmpl (quote (+ ARGSYM 4)))`, `(m 9001)`, `(- ARG 3)`, `(+ ARG 4)`},
+	{`(def cnt 0) (defmac m [a] (set cnt (+ cnt 1)) ^(+ ~a ~cnt))`, `(def unused 0)`, `(m 9001)`, `(+ ARG 1)`, `(+ ARG 2)`},
+	// one argument form spliced into two places of a template: two calls of the inner macro, as in the form written by hand
+	{`(def cnt 0) (defmac tick [a] (set cnt (+ cnt 1)) ^(+ ~a ~cnt)) (defmac m [x] ^(- (* 100 ~x) ~x))`, `(def unused 0)`, `(m (tick 9001))`, `(- (* 100 (+ ARG 1)) (+ ARG 2))`, `(- (* 100 (+ ARG 3)) (+ ARG 4))`},
+	{`(def cnt 0) (defmac tick [a] (set cnt (+ cnt 1)) ^(+ ~a ~cnt)) (defmac m [x] ^(let [u ~x] (+ (* 100 u) ~x)))`, `(def unused 0)`, `(m (tick 9001))`, `(let [u (+ ARG 1)] (+ (* 100 u) (+ ARG 2)))`, `(let [u (+ ARG 3)] (+ (* 100 u) (+ ARG 4)))`},
+}
+
+var vC15StatefulSites = []string{
+	`CALL`,
+	`(list 1 CALL)`,
+	`(let [q 1] (+ q CALL))`,
+	`(+ (t CALL) 0)`,
+	// the same definition form evaluated again: the function is compiled anew from the same form objects
+	`(defn g [] (+ 0 CALL)) (g)`,
+	`(defn g [] (list (t CALL))) (g)`,
+	`(defn g [u] (let [w u] (t (+ w CALL)))) (g 1)`,
+	`(def g (fn [] (cond true (t CALL) 0))) (g)`,
+}
+
+// vh_C15_stateful: a macro body is ordinary code; evaluating the very same
+// call form again after the state it consults has changed expands it again:
+// each evaluation equals the evaluation of the form the body returns then.
+func vh_C15_stateful() {
+	vFormatOpaque(true)
+	real := vEvalEnv(0)
+	hand := vEvalEnv(1)
+	mk := vChoice("macro", len(vC15Stateful))
+	sk := vChoice("site", len(vC15StatefulSites))
+	h := vSmallInt("h1")
+	m := vC15Stateful[mk]
+	site := vC15StatefulSites[sk]
+	run := func(env *Zlisp, text string) (Sexp, bool) {
+		var r Sexp
+		for _, f := range vT(env, text, h) {
+			var err error
+			var p bool
+			r, err, p = vEval(env, f)
+			if err != nil || p {
+				return nil, false
+			}
+		}
+		return r, true
+	}
+	if _, ok := run(real, m.def); !ok {
+		vAssert(false, "stateful-macro-defines")
+		return
+	}
+	call := vT(real, vReplace(site, "CALL", m.call), h)
+	evalAll := func() (r Sexp, err error, p bool) {
+		for _, f := range call {
+			r, err, p = vEval(real, f)
+			if err != nil || p {
+				return
+			}
+		}
+		return
+	}
+	r1, e1, p1 := evalAll()
+	_, okc := run(real, m.change)
+	r2, e2, p2 := evalAll() // the same form objects, evaluated again
+	vAssert(okc && !p1 && !p2 && e1 == nil && e2 == nil, "stateful-macro-calls-succeed")
+	if !okc || p1 || p2 || e1 != nil || e2 != nil {
+		return
+	}
+	w1, ok1 := run(hand, vReplace(site, "CALL", vReplace(m.hand0, "ARG", "9001")))
+	w2, ok2 := run(hand, vReplace(site, "CALL", vReplace(m.hand1, "ARG", "9001")))
+	vAssert(ok1 && ok2, "hand-expansions-evaluate")
+	if !ok1 || !ok2 {
+		return
+	}
+	vAssert(vSexpEq(r1, w1), "first-evaluation-equals-the-form-the-body-returned")
+	vAssert(vSexpEq(r2, w2), "later-evaluation-of-the-same-call-form-equals-the-form-the-body-returns-then")
+	vC04AtRest(real, "stateful-macro-caller")
+	vReach("stateful")
+}
